@@ -178,6 +178,8 @@ def wrap(t):
         return SInt(t)
     if z3.is_real(t):
         return SReal(t)
+    if z3.is_fp(t):
+        return SFP(t)
     raise Unsupported("unexpected sort %s" % t.sort())
 
 
@@ -483,6 +485,109 @@ class SReal(_Num):
 
     def item(self):
         return self
+
+
+_F64 = z3.Float64()
+_RNE = z3.RNE()
+
+
+def fp_term(x):
+    """IEEE double term of an SFP or of a Python / NumPy number"""
+    if isinstance(x, SFP):
+        return x.t
+    if isinstance(x, (bool,) + _NPBOOL):
+        x = int(x)
+    if isinstance(x, (int, float) + _NPFLOAT + _NPINT):
+        return z3.FPVal(float(x), _F64)
+    raise Unsupported("no IEEE-double term for %s" % type(x).__name__)
+
+
+class SFP(SReal):
+    """IEEE-754 double (z3 FloatingPoint sort, round to nearest even): used for small kernels whose
+    property is a statement about floating-point results (everything else runs over the reals).
+    Subclass of SReal so that the NumPy shim stores it in float64 arrays."""
+    __slots__ = ()
+
+    def _op(self, o, f, swap=False):
+        try:
+            b = fp_term(o)
+        except Unsupported:
+            return NotImplemented
+        a = self.t
+        return SFP(z3.simplify(f(b, a) if swap else f(a, b)))
+
+    def __add__(self, o):
+        return self._op(o, lambda a, b: z3.fpAdd(_RNE, a, b))
+
+    def __radd__(self, o):
+        return self._op(o, lambda a, b: z3.fpAdd(_RNE, a, b), True)
+
+    def __sub__(self, o):
+        return self._op(o, lambda a, b: z3.fpSub(_RNE, a, b))
+
+    def __rsub__(self, o):
+        return self._op(o, lambda a, b: z3.fpSub(_RNE, a, b), True)
+
+    def __mul__(self, o):
+        return self._op(o, lambda a, b: z3.fpMul(_RNE, a, b))
+
+    def __rmul__(self, o):
+        return self._op(o, lambda a, b: z3.fpMul(_RNE, a, b), True)
+
+    def __truediv__(self, o):
+        return self._op(o, lambda a, b: z3.fpDiv(_RNE, a, b))
+
+    def __rtruediv__(self, o):
+        return self._op(o, lambda a, b: z3.fpDiv(_RNE, a, b), True)
+
+    def __neg__(self):
+        return SFP(z3.fpNeg(self.t))
+
+    def __pos__(self):
+        return self
+
+    def __abs__(self):
+        return SFP(z3.fpAbs(self.t))
+
+    def _cmp(self, o, f):
+        try:
+            b = fp_term(o)
+        except Unsupported:
+            return NotImplemented
+        return wrap(z3.simplify(f(self.t, b)))
+
+    def __lt__(self, o):
+        return self._cmp(o, z3.fpLT)
+
+    def __le__(self, o):
+        return self._cmp(o, z3.fpLEQ)
+
+    def __gt__(self, o):
+        return self._cmp(o, z3.fpGT)
+
+    def __ge__(self, o):
+        return self._cmp(o, z3.fpGEQ)
+
+    def __eq__(self, o):
+        if o is None:
+            return False
+        return self._cmp(o, z3.fpEQ)
+
+    def __ne__(self, o):
+        if o is None:
+            return True
+        r = self._cmp(o, z3.fpEQ)
+        return NotImplemented if r is NotImplemented else sym_not(r)
+
+    __hash__ = None
+
+    def __floor__(self):
+        raise Unsupported("floor of an IEEE-double term")
+
+    __ceil__ = __trunc__ = __floor__
+
+    def __repr__(self):
+        return "<SFP %s>" % str(self.t)[:80]
 
 
 class SBool(Sym):
@@ -845,6 +950,17 @@ class Ctx(object):
         if hi is not None:
             self._assume_t(v <= ratval(hi))
         return SReal(v)
+
+    def fp(self, name, lo=None, hi=None):
+        """an IEEE double input (finite; optionally within [lo, hi])"""
+        v = z3.FP(name, _F64)
+        self.inputs[name] = v
+        self._assume_t(z3.Not(z3.Or(z3.fpIsNaN(v), z3.fpIsInf(v))))
+        if lo is not None:
+            self._assume_t(z3.fpGEQ(v, z3.FPVal(float(lo), _F64)))
+        if hi is not None:
+            self._assume_t(z3.fpLEQ(v, z3.FPVal(float(hi), _F64)))
+        return SFP(v)
 
     def bool(self, name):
         v = z3.Bool(name)
@@ -1382,6 +1498,12 @@ def model_value(val):
         return True
     if z3.is_false(val):
         return False
+    if z3.is_fp(val):
+        import struct
+        bv = z3.simplify(z3.fpToIEEEBV(val))
+        if z3.is_bv_value(bv):
+            return {"fp": struct.unpack("<d", struct.pack("<Q", bv.as_long()))[0].hex()}
+        return str(val)
     if z3.is_algebraic_value(val):
         a = val.approx(20)
         return {"num": a.numerator_as_long(), "den": a.denominator_as_long(), "approx": True}
@@ -1391,6 +1513,8 @@ def model_value(val):
 def model_float(v):
     """python number for a recorded model value"""
     if isinstance(v, dict):
+        if "fp" in v:
+            return float.fromhex(v["fp"])
         return v["num"] / v["den"] if v["den"] != 1 else float(v["num"])
     return v
 
